@@ -115,7 +115,7 @@ def summarize_t1(stats):
 # ----------------------------------------------------------------------------- C11 specifics
 TOL_VALUE = 1e-12      # matrix of the value, relative to max(1, |entries|)
 TOL_DERIV = 1e-9       # velocity, acceleration, jerk and all Jacobians
-SWITCH_LO, SWITCH_HI = 0.5e-4, 1.0e-3   # rotation increments |B_j w_j| around sqrt(eps2) = 1e-4
+SWITCH_LO, SWITCH_HI = 0.5e-4, 1.0e-2   # rotation increments |B_j w_j| in the strata "switch" and "above_switch" (sqrt(eps2) = 1e-4)
 
 
 def basis_vals(K, Bw, u):
@@ -174,11 +174,14 @@ class C11:
                    'Jacobian-of-velocity/acceleration recursions rest on T1 + audit (no theorem yet)',
                    'the basis matrix is a parameter; facts about the tables are C20']
 
+    def prebuild(self):
+        vlib.build_harnesses(specs())
+
     def budget(self, ctx):
         # (n per (K,G,basis), audit cost budget)
         if ctx['tier'] == 'quick':
             return 12, 60000 * ctx.get('budget', 1)
-        return 60, 600000 * ctx.get('budget', 1)
+        return 60, 2000000 * ctx.get('budget', 1)
 
     def check_lines(self, ctx, lines, audit_budget):
         res_t1 = t1(lines, ctx)
